@@ -38,6 +38,7 @@ package nsqd
 //   the observation, for the pause-guard of Topic.messagePump (ghosts in zz_contracts_ltopic_verif.go)
 //@   onreturn lTPauseFor := t
 //@   onreturn lTPauseObs := result
+//@   onreturn r3aPauseChecks := r3aPauseChecks + 1
 
 // The latency aggregate walks the channels' quantile streams only (internal/quantile is outside this
 // area): assumed not to touch any counter or queue of the topic or its channels.
